@@ -36,6 +36,8 @@ def run(ctx):
                      'through it', 10)
     ctx.rule('R12b2', 'cross-table: every environment the walker parses in math mode has a latex2text '
                       'spec routed to fmt_equation_environment', 10)
+    ctx.rule('R12g', 'who may drop a comment: every place in latex2text that tests for comment nodes routes them '
+                     'to comment_node_to_text (the keep_comments gate); no renderer skips them on its own', 1)
     ctx.rule('R12f', 'no comment reaches the renderer less than the source has: the delimited-expression '
                      'parser lists every token it read when an optional argument turns out to be absent '
                      '(shared with C02 R02f), so comments in front of it are not dropped', 1)
@@ -268,6 +270,26 @@ def run(ctx):
     ctx.decide('R12c', okd, m, dm[0] if dm else mn, 'unknown macros are discarded',
                'the fallback spec for unknown macros is not MacroTextSpec(\'\', discard=True)',
                construct='macro_node_to_text: unknown macro fallback')
+    # ------------------------------------------------------------------ R12g
+    # who-may-drop-comments: only comment_node_to_text decides (under keep_comments) what becomes
+    # of a comment; a renderer that singles out comment nodes must hand them to it
+    n_cm = 0
+    for mod_ in (m, repo.mod('pylatexenc.latex2text._defaultspecs')):
+        for q_, f_ in sorted(mod_.functions.items()):
+            for i_ in [x for x in iter_own(f_) if isinstance(x, ast.If)]:
+                if 'LatexCommentNode' not in unparse(i_.test):
+                    continue
+                n_cm += 1
+                routed = any(isinstance(c_, ast.Call) and call_name(c_) in ('comment_node_to_text', 'node_to_text',
+                                                                         'nodelist_to_text')
+                             for b_ in i_.body for c_ in ast.walk(b_))
+                ctx.decide('R12g', routed, mod_, i_, 'comment nodes are routed to comment_node_to_text',
+                           '%s singles out comment nodes (%s) without handing them to comment_node_to_text: with '
+                           'keep_comments=True the comment is lost from the output of this construct'
+                           % (q_, short(i_.test, 60)), construct='%s: %s' % (q_, short(i_.test, 60)))
+    if not n_cm:
+        raise AnalysisError('no dispatch on LatexCommentNode found in latex2text')
+
     # ------------------------------------------------------------------ R12f
     from . import c02, c05
     c02.first_tokens_complete(c05._Sub(ctx, 'R12f'), repo, 'R12f')
